@@ -147,14 +147,20 @@ pub fn run_scene(l: &[i128]) -> Vec<i128> {
     if l.len() < 4 {
         return vec![-3];
     }
-    let mut r = Rng(l[0] as u64 ^ 0x9E3779B97F4A7C15);
-    let (w, h) = (l[1] as u32, l[2] as u32);
-    let family = l[3] as u32;
-    let mut pm = Pixmap::new(w, h).unwrap();
+    render_scene(l[0] as u64, l[1] as u32, l[2] as u32, l[3] as u32, None).0
+}
+
+/// renders the scene; `init` = the pixmap to draw on (None: a fresh one with the scene's own background)
+pub fn render_scene(seed: u64, w: u32, h: u32, family: u32, init: Option<Pixmap>) -> (Vec<i128>, Pixmap) {
+    let mut r = Rng(seed ^ 0x9E3779B97F4A7C15);
+    let have_init = init.is_some();
+    let mut pm = init.unwrap_or_else(|| Pixmap::new(w, h).unwrap());
     // background so that destination-dependent modes have something to work on
     if r.below(3) != 0 {
         let bg = make_pixmap(&mut r, w, h);
-        pm.data_mut().copy_from_slice(bg.data());
+        if !have_init {
+            pm.data_mut().copy_from_slice(bg.data());
+        }
     }
     let ndraws = 1 + r.below(3);
     let (mut uses_recip, mut recip_gamma) = (0i128, 0i128);
@@ -263,7 +269,7 @@ pub fn run_scene(l: &[i128]) -> Vec<i128> {
     }
     let mut out = vec![uses_recip, recip_gamma];
     out.extend(pm.data().iter().map(|b| *b as i128));
-    out
+    (out, pm)
 }
 
 // ---- exhaustive / strided sweep of the unary lane operations against a reference written with scalar f32/f64
